@@ -1107,7 +1107,9 @@ func (self *LockDB) checkMillisecondExpried(ms int64, glockIndex uint16) {
 		nodeQueues := lockQueue.IterNodeQueues(int32(i))
 		for j, lock := range nodeQueues {
 			if !lock.expried {
-				if lock.command.ExpriedFlag&protocol.EXPRIED_FLAG_MILLISECOND_TIME == 0 {
+				if lock.command.ExpriedFlag&protocol.EXPRIED_FLAG_MILLISECOND_TIME == 0 || lock.command.ExpriedFlag&protocol.EXPRIED_FLAG_UNLIMITED_EXPRIED_TIME != 0 {
+					// not (or no longer) a millisecond deadline, or no deadline at all: the unlimited flag
+					// wins over the unit flag it came with
 					self.AddExpried(lock)
 					nodeQueues[j] = nil
 					continue
